@@ -1,9 +1,84 @@
 package main
 
 import (
+	"math"
+	"sync/atomic"
+
 	"github.com/lni/dragonboat/v4/raftio"
 	pb "github.com/lni/dragonboat/v4/raftpb"
+	c09 "github.com/lni/dragonboat/v4/verifhooks/c09"
 )
+
+// entryStore is the persistent entry store under the real LogReader: either the
+// harness' abstract in-memory one (what the Coq model's store mirrors) or one of
+// the REAL Pebble log stores (plain / batched entry format) over an in-memory
+// file system, so that LogReader.entriesLocked runs against the real
+// IterateEntries and the engine's SaveRaftState / RemoveEntriesTo.
+type entryStore interface {
+	save(ents []pb.Entry)
+	removeTo(k uint64)
+	get(i uint64) (pb.Entry, bool)
+	db() raftio.ILogDB
+	ids() (uint64, uint64)
+	release()
+}
+
+func (s *memStore) db() raftio.ILogDB     { return s }
+func (s *memStore) ids() (uint64, uint64) { return 1, 1 }
+func (s *memStore) release()              {}
+
+// one real store of each kind per process, a fresh replica id per case
+var realDBs = map[string]raftio.ILogDB{}
+var nextReplica uint64 = 100
+
+type realStore struct {
+	d              raftio.ILogDB
+	shard, replica uint64
+}
+
+func newStore(kind string) entryStore {
+	if kind == "" || kind == "mem" {
+		return newMemStore()
+	}
+	d, ok := realDBs[kind]
+	if !ok {
+		var err error
+		d, err = c09.OpenPebble(c09.NewMemFS(), "/c19-"+kind, 1, kind == "batched")
+		if err != nil {
+			panic(err)
+		}
+		realDBs[kind] = d
+	}
+	return &realStore{d: d, shard: 1, replica: atomic.AddUint64(&nextReplica, 1)}
+}
+
+func (s *realStore) save(ents []pb.Entry) {
+	if len(ents) == 0 {
+		return
+	}
+	cp := append([]pb.Entry(nil), ents...)
+	ud := pb.Update{ShardID: s.shard, ReplicaID: s.replica, EntriesToSave: cp}
+	if err := s.d.SaveRaftState([]pb.Update{ud}, 1); err != nil {
+		panic(err)
+	}
+}
+func (s *realStore) removeTo(k uint64) {
+	if err := s.d.RemoveEntriesTo(s.shard, s.replica, k); err != nil {
+		panic(err)
+	}
+}
+func (s *realStore) get(i uint64) (pb.Entry, bool) {
+	es, _, err := s.d.IterateEntries(nil, 0, s.shard, s.replica, i, i+1, math.MaxUint64)
+	if err != nil || len(es) != 1 || es[0].Index != i {
+		return pb.Entry{}, false
+	}
+	return es[0], true
+}
+func (s *realStore) db() raftio.ILogDB     { return s.d }
+func (s *realStore) ids() (uint64, uint64) { return s.shard, s.replica }
+func (s *realStore) release() {
+	_ = s.d.RemoveNodeData(s.shard, s.replica)
+}
 
 // memStore is the abstract persistent entry store: a raftio.ILogDB of which the
 // LogReader only uses IterateEntries. Semantics follow internal/logdb/plain.go:
